@@ -120,6 +120,7 @@ def run(ctx):
     # ---------------- R2 the counter is monotone
     ctx.rule("C18.R2", "every call between depth-carrying functions passes its own call_depth + k (k >= 0, constant); FunctionDef::call passes k >= 1 to the body; only drivers pass constants", floor=40)
     ctx.rule("C18.R4", "depth is consumed by calls only: every edge between the evaluator's own functions passes call_depth unchanged and FunctionDef::call evaluates the body at call_depth + 1 exactly (the limit of 1000 then means 1000 nested calls)", floor=20)
+    edge_cost = {}
     carriers = {}
     for name in cg.fns:
         i = depth_param_index(crates, name)
@@ -149,6 +150,7 @@ def run(ctx):
             k += 1
             in_core_cycle = name.startswith(CORE) and (own is not None or f.get("parent") in carriers)
             if d[0] == "param":
+                edge_cost.setdefault((f.get("parent") or name, c), []).append(d[1])
                 # FunctionDef::call is the one place where a Blots-level call is counted: the body and the built-in dispatch both run one
                 # level down (a built-in's own native frames - and those of the callbacks it makes - are part of the per-level stack budget)
                 need = 1 if (name == FCALL and c in (EVAL, BCALL)) else 0
@@ -166,6 +168,25 @@ def run(ctx):
             else:
                 ctx.inst("C18.R2", key, None if not in_core_cycle else False, "depth argument is %s" % (d[1],), fn.loc(b))
     ctx.units["depth_passing_call_sites"] = n
+    # what one level of recursion through a callback of a higher-order built-in costs: FunctionDef::call -> BuiltInFunction::call (+1),
+    # the built-in -> (helpers) -> FunctionDef::call of the callback, the callback's body (+1). "A few hundred calls deep completes" needs
+    # the whole round to stay at 3 units (1000 / 3 = 333 levels); every extra unit on the way from the built-in to the callback's call
+    # costs a quarter of the reachable depth (4 units: 250 levels)
+    def max_cost(src, dst, seen=()):
+        best = None
+        for (a_, b_), ks in edge_cost.items():
+            if a_ != src or b_ in seen:
+                continue
+            k_ = max(ks)
+            if b_ == dst:
+                best = k_ if best is None else max(best, k_)
+            elif b_.startswith(CORE + "functions::") and b_ not in (FCALL, BCALL) and len(seen) < 3:
+                sub = max_cost(b_, dst, seen + (b_,))
+                if sub is not None:
+                    best = k_ + sub if best is None else max(best, k_ + sub)
+        return best
+    cb = max_cost(BCALL, FCALL)
+    ctx.inst("C18.R4", "callback-round#depth-cost", None if cb is None else cb <= 1, "from a higher-order built-in to the call of its callback the depth grows by %s (1 at the pinned tree: a recursion through map costs 3 units per level, so ~330 levels fit under the limit of 1000)" % cb, None)
 
     # ---------------- R3 (quick part): where the evaluator runs
     # ---------------- R5 the depth error's text survives the way out
@@ -335,6 +356,15 @@ def run(ctx):
                     verdict, why = True, "bound, nothing else is evaluated before it is returned"
             elif kind in ("Semi", "Expr") or (kind == "Block" and par.get("expr") is not cur):
                 verdict, why = False, "the result is discarded"
+            elif kind == "Match" and par.get("scrut") is cur:
+                # `match evaluate(..) { Ok(v) => v, Err(e) => return Err(e) }` is `?` written out; an Err arm that answers with a value
+                # swallows the error (the call-depth error with it)
+                err_arms = [a_ for a_ in par["arms"] if any(H.last(v_) == "Err" for v_ in H.pat_variants(a_["pat"]))]
+                swallow = [H.loc(a_["body"]) for a_ in err_arms if not any(H.kind(y) == "Ret" or (H.kind(y) == "Call" and H.last((H.strip(y["f"]).get("res") or {}).get("def") or "") == "Err") for y in H.walk(a_["body"]))]
+                if err_arms and swallow:
+                    verdict, why = False, "an `Err` arm answers with a value (%s): an evaluation error - the call-depth error included - is replaced by a result" % swallow[0]
+                elif err_arms:
+                    verdict, why = True, "matched; every `Err` arm returns an error"
             lab = H.last(x["def"])
             i_ = k11.get(lab, 0)
             k11[lab] = i_ + 1
